@@ -4,8 +4,8 @@ package prelude
 
 //@ func (github.com/cosmos/cosmos-sdk/types.Context).BlockHeight
 //@   ensures result == W.height
-//@   ensures result >= 0
-//@   assumes A-TIME: block heights are never negative
+//@   ensures result >= 0 && result <= 1152921504606846976
+//@   assumes A-TIME: block heights are never negative and stay below 2^60 (at six seconds a block, 2e11 years)
 //@ func (github.com/cosmos/cosmos-sdk/types.Context).BlockTime
 //@   ensures result == W.time
 //@ func (github.com/cosmos/cosmos-sdk/types.Context).BlockGasMeter
